@@ -25,15 +25,17 @@ import (
 )
 
 type tracked struct {
-	name string
-	n    datamodel.Node
-	snap ref.Val
+	name  string
+	n     datamodel.Node
+	snap  ref.Val
+	typed bool // read through both views with the typed observer
 }
 
 type world struct {
 	nodes   []tracked
 	builder datamodel.NodeBuilder // the builder that produced nodes[0], if any
 	raw     []byte                // raw block handed back by LoadPlusRaw, if any (never written by the harness)
+	typed   bool                  // the product is a typed node
 }
 
 func (w *world) track(name string, n datamodel.Node) {
@@ -42,7 +44,7 @@ func (w *world) track(name string, n datamodel.Node) {
 		// an inconsistent fresh node is C01's business; still track what it reads as
 		_ = incs
 	}
-	w.nodes = append(w.nodes, tracked{name, n, v})
+	w.nodes = append(w.nodes, tracked{name: name, n: n, snap: v})
 }
 
 type producer struct {
@@ -79,7 +81,7 @@ func routedWorld(v ref.Val, routes ref.Routes, reuse bool) func() *world {
 		}
 		w.nodes = append([]tracked{{}}, w.nodes...)
 		v0, _ := ref.Observe(n2)
-		w.nodes[0] = tracked{"built", n2, v0}
+		w.nodes[0] = tracked{name: "built", n: n2, snap: v0}
 		w.builder = nb
 		return w
 	}
@@ -508,7 +510,13 @@ func RunCase(p producer, ops []operation) (fs []core.Finding, steps int) {
 			for round := 0; round < 2; round++ {
 				var got ref.Val
 				var incs []ref.Inc
-				pan := core.Guard(func() { got, incs = ref.Observe(t.n) })
+				pan := core.Guard(func() {
+					if t.typed {
+						got = typedView(t.n)
+					} else {
+						got, incs = ref.Observe(t.n)
+					}
+				})
 				if pan != "" {
 					fs = append(fs, core.F(fmt.Sprintf("read-panic-after(%s|%s/%s)", after, producerClass(p.name), t.name), "producer %s: %s", p.name, pan))
 					return false
@@ -535,10 +543,11 @@ func RunCase(p producer, ops []operation) (fs []core.Finding, steps int) {
 		names = append(names, o.name)
 		pan := core.Guard(func() { o.run(w) })
 		steps++
-		if pan != "" {
+		if pan != "" && !w.typed {
 			fs = append(fs, core.F(fmt.Sprintf("op-panic(%s|%s)", o.name, producerClass(p.name)), "producer %s ops %v: %s", p.name, names, pan))
 			return fs, steps
 		}
+		// (a generic operation a typed node refuses by panicking is C08/C12's business; what it left behind is checked here)
 		if !check(o.name) {
 			return fs, steps
 		}
@@ -548,13 +557,13 @@ func RunCase(p producer, ops []operation) (fs []core.Finding, steps int) {
 
 func Main(r *core.Run) {
 	quick := r.Quick()
-	ps := producers(quick)
-	ops := operations()
+	ps := append(producers(quick), typedProducers()...)
+	ops := append(operations(), typedOperations()...)
 	depth := 2
 	if !quick {
 		depth = 3
 	}
-	r.Rule(fmt.Sprintf("%d producers (every basicnode builder route class incl. AssignNode shortcuts, oversize hints, Reset-reused builders; dag-cbor/dag-json decoders; Load/LoadPlusRaw with raw and dag-cbor; NewBytesFromReader; bytes builder fed a large-bytes node; subset matches over plain/reader-backed bytes and strings; focused and walking transform results and their inputs) × every sequence of ≤%d operations out of %d (complete read, encode ×2, DeepEqual, partial/seeked large-bytes reads, interleaved iterators, copy/AssignNode into other builders that are then extended or reused, Reset+reuse of the producing builder, walks, subset-matching walks, transforms); after every step every tracked node (the product and everything derived from or sharing structure with it) is read completely twice and compared with its snapshot. Non-trivial = sequences of ≥2 operations; distinct by (producer, sequence).", len(ps), depth, len(ops)))
+	r.Rule(fmt.Sprintf("%d producers (every basicnode builder route class incl. AssignNode shortcuts, oversize hints, Reset-reused builders; dag-cbor/dag-json decoders; Load/LoadPlusRaw with raw and dag-cbor; NewBytesFromReader; bytes builder fed a large-bytes node; subset matches over plain/reader-backed bytes and strings; focused and walking transform results and their inputs; bindnode nodes of one type per representation strategy made by the type-level builder, the representation builder and the decoder, and nodes of the checked-in generated package, tracked through both views) × every sequence of ≤%d operations out of %d (complete read, encode ×2, DeepEqual, partial/seeked large-bytes reads, interleaved iterators, copy/AssignNode into other builders that are then extended or reused, Reset+reuse of the producing builder, walks, subset-matching walks, transforms); after every step every tracked node (the product and everything derived from or sharing structure with it) is read completely twice and compared with its snapshot. Non-trivial = sequences of ≥2 operations; distinct by (producer, sequence).", len(ps), depth, len(ops)))
 	r.Assume("the harness never writes into byte slices it passed in or was handed back")
 	var seqs [][]int
 	var rec func(cur []int)
@@ -605,7 +614,7 @@ func Replay(r *core.Run, raw json.RawMessage) {
 	if err := json.Unmarshal(raw, &c); err != nil {
 		panic(err)
 	}
-	all := operations()
+	all := append(operations(), typedOperations()...)
 	var os []operation
 	for _, n := range c.Ops {
 		for _, o := range all {
@@ -614,7 +623,7 @@ func Replay(r *core.Run, raw json.RawMessage) {
 			}
 		}
 	}
-	for _, p := range producers(false) {
+	for _, p := range append(producers(false), typedProducers()...) {
 		if p.name == c.Producer {
 			fs, _ := RunCase(p, os)
 			r.Report("history", c, fs)
